@@ -149,6 +149,15 @@ def check(prop: str, tier: str, seed: int, nshards: int = 16, scale: float = 1.0
             d["nontrivial"] += v.get("nontrivial", 0)
             d["wall_s_max"] = max(d["wall_s_max"], v.get("wall_s", 0.0))
             d["budget_per_shard"] = v.get("budget")
+            if v.get("slowest_s", 0) > d.get("slowest_s", 0):
+                d["slowest_s"] = v["slowest_s"]
+                if "slowest_case" in v:
+                    d["slowest_case"] = v["slowest_case"]
+            for key in ("timeouts",):
+                if key in v:
+                    d[key] = d.get(key, 0) + v[key]
+            if v.get("aborted_inconclusive"):
+                d["aborted_inconclusive"] = d.get("aborted_inconclusive", 0) + 1
         for k, v in (r.get("extra") or {}).items():
             if isinstance(v, (int, float)):
                 extra[k] = extra.get(k, 0) + v
@@ -234,7 +243,9 @@ def check(prop: str, tier: str, seed: int, nshards: int = 16, scale: float = 1.0
     print("%s %s seed=%d: %d cases, %d distinct non-trivial, %d violation(s), %d/%d shards ok, %.1fs" % (
         prop, tier, seed, evaluations, len(nontrivial), len(by_sig), ok_shards, nshards, wall))
     for k, d in parts.items():
-        print("  part %-22s %7d cases %7d nontrivial  %.1fs" % (k, d["evaluations"], d["nontrivial"], d["wall_s_max"]))
+        print("  part %-22s %7d cases %7d nontrivial  %.1fs  slowest case %.2fs%s" % (
+            k, d["evaluations"], d["nontrivial"], d["wall_s_max"], d.get("slowest_s", 0.0),
+            ("  timeouts=%d" % d["timeouts"]) if d.get("timeouts") else ""))
     if by_sig:
         return 1
     if harness_errors or ok_shards * 2 < nshards:
